@@ -1,2 +1,288 @@
-//! harnesses mounted into the crate (see DESIGN.md 3.1)
+//! C03 (time kernel), C05 (bucket arithmetic, ExpirationMap step lemmas). Child of `crate::ttl`.
 #![allow(dead_code, unused_imports)]
+use super::*;
+use crate::verif_env::{clock, hm_from, Map, HS};
+use crate::verif_nd::{self as nd, harness, vassert, vcover};
+
+pub(crate) const SECS_MAX: u64 = 1 << 40;
+
+pub(crate) fn any_duration(max_secs: u64) -> Duration {
+    let s = nd::any_u64();
+    nd::assume(s <= max_secs);
+    let n = nd::any_u32();
+    nd::assume(n < 1_000_000_000);
+    Duration::new(s, n)
+}
+
+/// a `Time` created at an arbitrary instant with an arbitrary TTL (zero allowed = no TTL)
+pub(crate) fn any_time(max_secs: u64) -> Time {
+    Time {
+        d: any_duration(max_secs),
+        created_at: SystemTime::at(any_duration(max_secs)),
+    }
+}
+
+pub(crate) fn time_at(created: Duration, d: Duration) -> Time {
+    Time {
+        d,
+        created_at: SystemTime::at(created),
+    }
+}
+
+pub(crate) fn deadline(t: &Time) -> Duration {
+    t.created_at.since_epoch() + t.d
+}
+pub(crate) fn created(t: &Time) -> Duration {
+    t.created_at.since_epoch()
+}
+pub(crate) fn ttl_of(t: &Time) -> Duration {
+    t.d
+}
+pub(crate) fn bucket_of(t: Time) -> i64 {
+    storage_bucket(t)
+}
+
+harness! {
+    []
+    fn c03_time_kernel() {
+        // full width: seconds < 2^40, every nanosecond value
+        let t = any_time(SECS_MAX);
+        let c = created(&t);
+        let d = t.d;
+        let now1 = any_duration(2 * SECS_MAX);
+        let now2 = any_duration(2 * SECS_MAX);
+        nd::assume(c <= now1 && now1 <= now2);
+        clock::set(now1.as_secs(), now1.subsec_nanos());
+        let el1 = now1 - c;
+        vassert!(t.elapsed() == el1, "elapsed is now - created");
+        vassert!(t.is_expired() == (d <= el1), "is_expired iff the TTL has fully elapsed since the insert");
+        let ttl1 = t.get_ttl();
+        if d.is_zero() {
+            vassert!(t.is_zero(), "zero duration means no TTL");
+            vassert!(ttl1 == Duration::MAX, "no TTL: no expiry is reported");
+        } else if el1 >= d {
+            vassert!(ttl1 == Duration::ZERO, "elapsed TTL reports zero remaining time");
+        } else {
+            vassert!(ttl1 == d - el1, "remaining time is d - elapsed");
+            vassert!(ttl1 <= d && !ttl1.is_zero(), "remaining time is at most d and positive before the deadline");
+        }
+        clock::set(now2.as_secs(), now2.subsec_nanos());
+        let ttl2 = t.get_ttl();
+        vassert!(ttl2 <= ttl1, "remaining time never increases");
+        vassert!(!t.is_expired() || d <= now2 - c, "never reported expired before the deadline");
+        vassert!(t.unix() == (c + d).as_secs(), "unix() is the deadline in whole seconds");
+        vcover!(!d.is_zero() && el1 < d && now2 - c >= d, "deadline passes between the two readings");
+        vcover!(!d.is_zero() && d.as_secs() == 0 && el1 < d, "sub-second TTL still alive");
+        vcover!(d.is_zero(), "no TTL");
+        vcover!(c.subsec_nanos() + d.subsec_nanos() >= 1_000_000_000, "deadline carries into the next second");
+    }
+}
+
+harness! {
+    []
+    fn c05_bucket_arith() {
+        // An entry with deadline D lives in bucket floor(D)+1. A cleanup pass at instant t handles
+        // bucket floor(t). Safety: whatever bucket a pass at t is allowed to sweep (<= floor(t))
+        // only holds entries whose TTL has elapsed at t. Liveness: every pass at t >= D + 1s covers
+        // the entry's bucket.
+        let e = any_time(SECS_MAX);
+        nd::assume(!e.is_zero());
+        let t = any_duration(2 * SECS_MAX);
+        nd::assume(t >= created(&e));
+        clock::set(t.as_secs(), t.subsec_nanos());
+        let now = Time::now();
+        let sb = storage_bucket(e);
+        let cb = cleanup_bucket(now);
+        vassert!(sb == deadline(&e).as_secs() as i64 + 1, "an entry is filed under the second after its deadline");
+        vassert!(cb == t.as_secs() as i64, "a pass at t handles the bucket of the second that just ended");
+        if sb <= cb {
+            vassert!(e.is_expired(), "a bucket that is due only holds entries whose TTL has elapsed");
+        }
+        if t >= deadline(&e) + Duration::from_secs(1) {
+            vassert!(sb <= cb, "one bucket width after the deadline the entry's bucket is due");
+        }
+        vcover!(sb == cb, "bucket exactly due");
+        vcover!(sb < cb, "bucket overdue by more than a second");
+        vcover!(sb == cb + 1 && e.is_expired(), "expired but bucket not yet due");
+    }
+}
+
+// ------------------------------------------------------------------------------ ExpirationMap
+
+/// ghost view of an expiration map: up to 3 (bucket, key, conflict) triples
+pub(crate) type EmGhost = [Option<(i64, u64, u64)>; 3];
+
+/// Build an `ExpirationMap` holding exactly the given (bucket, key, conflict) entries.
+/// Under Kani bucket placement order is the order given.
+pub(crate) fn em_from(g: &EmGhost) -> ExpirationMap<HS> {
+    let em = ExpirationMap::with_hasher(HS::default());
+    {
+        let mut m = em.buckets.write();
+        let mut i = 0;
+        while i < 3 {
+            if let Some((b, k, c)) = g[i] {
+                match m.get_mut(&b) {
+                    Some(bucket) => {
+                        bucket.map.insert(k, c);
+                    }
+                    None => {
+                        let mut bucket = Bucket::with_hasher(HS::default());
+                        bucket.map.insert(k, c);
+                        m.insert(b, bucket);
+                    }
+                }
+            }
+            i += 1;
+        }
+    }
+    em
+}
+
+/// is (key -> conflict) listed in bucket b?
+pub(crate) fn em_listed(em: &ExpirationMap<HS>, b: i64, k: u64) -> Option<u64> {
+    let m = em.buckets.read();
+    match m.get(&b) {
+        Some(bucket) => bucket.map.get(&k).copied(),
+        None => None,
+    }
+}
+
+/// number of buckets that list key k
+pub(crate) fn em_count_key(em: &ExpirationMap<HS>, k: u64) -> usize {
+    let m = em.buckets.read();
+    let mut n = 0;
+    for (_, bucket) in m.iter() {
+        if bucket.map.contains_key(&k) {
+            n += 1;
+        }
+    }
+    n
+}
+
+pub(crate) fn em_total(em: &ExpirationMap<HS>) -> usize {
+    let m = em.buckets.read();
+    let mut n = 0;
+    for (_, bucket) in m.iter() {
+        n += bucket.map.len();
+    }
+    n
+}
+
+#[cfg(kani)]
+use crate::verif_env::stubs;
+
+fn em_step(op_fixed: Option<u8>, secs_max: u64) {
+    // Arbitrary map with one other entry (key g in bucket bg) and possibly the subject key k
+    // filed under its old expiration; one real operation on k; the neighbour must stay filed
+    // and k must be filed exactly under its new expiration (or nowhere if it has no TTL).
+    let k = nd::any_u64();
+    let g = nd::any_u64();
+    nd::assume(k != g);
+    let old = any_time(secs_max);
+    let new = any_time(secs_max);
+    let other = any_time(secs_max);
+    nd::assume(!other.is_zero());
+    let bg = storage_bucket(other);
+    let cg = nd::any_u64();
+    let ck = nd::any_u64();
+    let k_present = nd::any_bool();
+    let mut ghost: EmGhost = [Some((bg, g, cg)), None, None];
+    if k_present && !old.is_zero() {
+        ghost[1] = Some((storage_bucket(old), k, ck));
+    }
+    let em = em_from(&ghost);
+    let op = match op_fixed { Some(o) => o, None => nd::any_u8_in(0, 2) };
+    let b_old = storage_bucket(old);
+    let b_new = storage_bucket(new);
+    if op == 0 {
+        // insert of a key that is not in the store
+        nd::assume(!k_present);
+        em.try_insert(k, ck, new).unwrap();
+        if new.is_zero() {
+            vassert!(em_listed(&em, b_new, k).is_none(), "an entry without TTL is not filed for cleanup");
+        } else {
+            vassert!(em_listed(&em, b_new, k) == Some(ck), "insert files the key under its deadline bucket");
+        }
+        vcover!(!new.is_zero() && b_new == bg, "[insert] inserted into the neighbour's bucket");
+    } else if op == 1 {
+        nd::assume(k_present);
+        em.try_update(k, ck, old, new).unwrap();
+        if new.is_zero() {
+            vassert!(em_listed(&em, b_new, k).is_none(), "re-insert without TTL: the key is no longer filed for cleanup");
+        } else {
+            vassert!(em_listed(&em, b_new, k) == Some(ck), "update files the key under its new deadline bucket");
+        }
+        if !old.is_zero() && (new.is_zero() || b_old != b_new) {
+            vassert!(em_listed(&em, b_old, k).is_none(), "update removes the old filing of the key");
+        }
+        vcover!(!old.is_zero() && b_old == bg && !new.is_zero() && b_new != bg, "[update] key moves out of the neighbour's bucket");
+        vcover!(old.is_zero() && !new.is_zero() && b_old == b_new, "[update] no-TTL entry gains a TTL in the same second");
+        vcover!(!old.is_zero() && new.is_zero(), "[update] TTL dropped");
+        vcover!(old.is_zero() && b_old == bg, "[update] old entry had no TTL but its creation second matches the neighbour's bucket");
+    } else {
+        nd::assume(k_present && !old.is_zero());
+        em.try_remove(&k, old).unwrap();
+        vassert!(em_listed(&em, b_old, k).is_none(), "remove un-files the key");
+        vcover!(b_old == bg, "[remove] removed from the neighbour's bucket");
+    }
+    vassert!(em_listed(&em, bg, g) == Some(cg), "a neighbour sharing an expiry bucket stays filed for cleanup (I-EM1)");
+    std::mem::forget(em);
+}
+
+macro_rules! em_harness {
+    ($name:ident, $op:expr, $secs:expr) => {
+        harness! {
+            [kani::unwind(5),
+             kani::stub(parking_lot::RawRwLock::lock_shared_slow, stubs::rw_lock_shared_slow),
+             kani::stub(parking_lot::RawRwLock::lock_exclusive_slow, stubs::rw_lock_exclusive_slow),
+             kani::stub(parking_lot::RawRwLock::unlock_shared_slow, stubs::rw_unlock_shared_slow),
+             kani::stub(parking_lot::RawRwLock::unlock_exclusive_slow, stubs::rw_unlock_exclusive_slow)]
+            fn $name() {
+                em_step($op, $secs);
+            }
+        }
+    };
+}
+em_harness!(c05_em_step_insert, Some(0), SECS_MAX);
+em_harness!(c05_em_step_update, Some(1), SECS_MAX);
+em_harness!(c05_em_step_remove, Some(2), SECS_MAX);
+em_harness!(probe_em_update_small, Some(1), 1 << 16);
+
+harness! {
+    [kani::unwind(5),
+     kani::stub(parking_lot::RawRwLock::lock_shared_slow, stubs::rw_lock_shared_slow),
+             kani::stub(parking_lot::RawRwLock::lock_exclusive_slow, stubs::rw_lock_exclusive_slow),
+             kani::stub(parking_lot::RawRwLock::unlock_shared_slow, stubs::rw_unlock_shared_slow),
+             kani::stub(parking_lot::RawRwLock::unlock_exclusive_slow, stubs::rw_unlock_exclusive_slow)]
+    fn c05_em_cleanup_due() {
+        // entries a (deadline Da) and b (deadline Db) filed in the map; a cleanup pass at an
+        // arbitrary instant t returns a iff its bucket is due at t, never an entry whose bucket is
+        // not due, and un-files what it returns.
+        let a = any_time(SECS_MAX);
+        let b = any_time(SECS_MAX);
+        nd::assume(!a.is_zero() && !b.is_zero());
+        let ka = nd::any_u64();
+        let kb = nd::any_u64();
+        nd::assume(ka != kb);
+        let ghost: EmGhost = [Some((storage_bucket(a), ka, 1)), Some((storage_bucket(b), kb, 2)), None];
+        let em = em_from(&ghost);
+        let t = any_duration(2 * SECS_MAX);
+        nd::assume(t >= created(&a) && t >= created(&b));
+        clock::set(t.as_secs(), t.subsec_nanos());
+        let now = Time::now();
+        let due_a = storage_bucket(a) <= cleanup_bucket(now);
+        let due_b = storage_bucket(b) <= cleanup_bucket(now);
+        let got = em.try_cleanup(now).unwrap();
+        let got_a = got.as_ref().map_or(false, |m| m.get(&ka) == Some(&1));
+        let got_b = got.as_ref().map_or(false, |m| m.get(&kb) == Some(&2));
+        vassert!(!got_a || due_a, "cleanup never hands out an entry whose bucket is not due");
+        vassert!(!got_b || due_b, "cleanup never hands out an entry whose bucket is not due (second entry)");
+        vassert!(!due_a || got_a, "a due bucket is handed out by the next cleanup pass, however late the pass is");
+        vassert!(!due_b || got_b, "a due bucket is handed out by the next cleanup pass (second entry)");
+        vassert!(em_count_key(&em, ka) == if got_a { 0 } else { 1 }, "handed-out entries are un-filed, others stay filed");
+        vassert!(em_count_key(&em, kb) == if got_b { 0 } else { 1 }, "handed-out entries are un-filed, others stay filed (second entry)");
+        vcover!(due_a && !due_b, "one due, one not");
+        vcover!(due_a && due_b && storage_bucket(a) != storage_bucket(b), "two different due buckets");
+        vcover!(due_a && storage_bucket(a) < cleanup_bucket(now), "overdue by more than a second (late tick / interval > 1s)");
+    }
+}
